@@ -112,6 +112,30 @@ fn main() {
                 }
                 frontier = next;
             }
+            // every ASCII character (controls included) and a few multi-character tokens: all strings of up to 2 of them
+            // (3 with MAXLEN >= 5, the thorough tier) -- every pair of adjacent lexer sub-parsers, operators that share a
+            // prefix, escapes in strings, number forms
+            {
+                let mut alpha2: Vec<String> = (0u8..128).map(|b| (b as char).to_string()).collect();
+                for t in ["fn", "let", "->", "<-", "=>", "||>", "|>", "..", "::", "\\\"", "1e5", "0x1F", "1.0.2", "self", "now", "_x", "x_1"] { alpha2.push(t.to_string()); }
+                let depth2 = if max >= 5 { 3 } else { 2 };
+                let mut frontier: Vec<String> = vec![String::new()];
+                for _ in 0..depth2 {
+                    let mut next = vec![];
+                    for s in &frontier {
+                        for a in &alpha2 {
+                            let t = format!("{s}{a}");
+                            tried += 1;
+                            if let Some(c) = check(&t, true) {
+                                println!("FOUND src={t:?} clause={c} tried={tried}");
+                                return;
+                            }
+                            next.push(t);
+                        }
+                    }
+                    frontier = next;
+                }
+            }
             // every scalar value below U+3100 (Latin .. CJK punctuation: all the Unicode blanks, controls, format characters
             // and the full-width space live there), every `char::is_whitespace` / control character, and a sample of the
             // rest: alone, and between two syntax tokens (seed C13m: a blank the lexer's own blank set does not contain)
